@@ -91,7 +91,8 @@ def run(chk, replay=None):
         start[c] = pos
         pos += len(lines)
     seen = set()
-    for v in sorted(s["viol"], key=lambda v: v["line"]):
+    # shortest histories first: they come from the all-paths / tour sets and do not depend on the seed
+    for v in sorted(s["viol"], key=lambda v: (v["line"] - start[v["case"]], v["line"])):
         if v["case"] in seen:
             continue
         seen.add(v["case"])
